@@ -2,7 +2,7 @@
 import ast
 
 from .. import AnalysisError
-from ..effects import (is_resolve, is_enq_send, is_enq_lease, signal_kind, is_finish, strip_epoch, term_root)
+from ..effects import (is_gone, gone_key, is_resolve, is_enq_send, is_enq_lease, signal_kind, is_finish, strip_epoch, term_root)
 from ..index import walk_local, ClassInfo
 from ..interp import AVal, const
 from . import COMMON_ASSUMPTIONS
@@ -310,11 +310,10 @@ def rule_d(ctx):
         for e in p.events:
             if e.kind == 'store' and e.data['target'][0] == 'local' and e.node is loops[0]:
                 target_terms.add(e.data['value'].term)
-        fin = [e for e in p.events if is_finish(e, ctx.slots)]
+        fin = [gone_key(e, ctx.slots) for e in p.events if is_gone(e, ctx.slots)]
         if p.outcome == 'return' and not fin:
             ok = False
-        for e in fin:
-            a = e.data['args'][0].term if e.data.get('args') else None
+        for a in fin:
             if a not in target_terms:
                 ok = False
     rep.add('C07.d', 'StreamControl.stop_all_streams / finish each', f, ok,
